@@ -229,6 +229,9 @@ def run_batch(crate_dir, harnesses, feature=None, timeout=600, jobs=6, playback=
             failed.append("%s @ %s:%s in %s" % (desc, m.group(2), m.group(3), m.group(4).strip()))
         for m in re.finditer(r'Failed Checks: ([^\n]*)\n(?!\s*File:)', raw):
             failed.append(m.group(1).strip().strip('"'))
+        for m in re.finditer(r'Check \d+: ([^\n]+)\n\s*- Status: FAILURE\n\s*- Description: "([^\n]*)"\n(?:\s*- Location: ([^\n]+))?', raw):
+            if ".cover." not in m.group(1):
+                failed.append("%s @ %s" % (m.group(2), (m.group(3) or "").strip()))
         cm = re.search(r'\*\* (\d+) of (\d+) cover properties satisfied', raw)
         if cm:
             cover.append(("%s of %s cover properties satisfied" % (cm.group(1), cm.group(2)),
@@ -240,9 +243,27 @@ def run_batch(crate_dir, harnesses, feature=None, timeout=600, jobs=6, playback=
             status = E.FAILED
         else:
             status = E.UNDECIDED  # timeout, CBMC crash, no output
+        failed = list(dict.fromkeys(failed))
         res[h] = dict(status=status, failed=failed, cover=cover, time_s=float(tm.group(1)) if tm else 0.0,
-                      raw=raw[-6000:] if raw else log[-3000:], playback=E.parse_playback(raw) if playback else None)
+                      raw=raw[-6000:] if raw else log[-3000:],
+                      playback=pick_playback(raw) if playback else None)
     return res, " ".join(cmd), wall
+
+
+def pick_playback(text):
+    """Kani prints one playback test per satisfied cover AND per failed check.  Return the
+    values of the first test generated for a failed *spec clause* (never a cover's)."""
+    blocks = re.split(r'(?=Concrete playback unit test for)', text)
+    for blk in blocks:
+        m = re.search(r'/// Check for `([^`]*)`: "([^\n]*)"', blk)
+        if not m or m.group(1) == "cover":
+            continue
+        if not SPEC_PREFIX.match(m.group(2)):
+            continue
+        vals = E.parse_playback(blk)
+        if vals:
+            return vals
+    return None
 
 
 SPEC_PREFIX = re.compile(r'^(C\d\d\.|Lexer::new)')
@@ -305,7 +326,7 @@ def table(b):
              bound="source of <= %d chars over %s, cursor on any `*`, newline or digit; unwind %d" % (b['N_SPAN'], alpha(T_SPAN), b['U_SPAN']),
              text="requires lexer.chars == source.chars() and index == k (k chars consumed); ensures the pushed token's span == [byte offset of char k, byte offset of the char after the token) in the UTF-8 source, within the source (consumers: Location::range -> codespan labels, FileData::line_number_for_index, both byte-indexed)"),
         dict(h="keyword_table", id="C04.lex.keyword_table", props=["C04", "C33"], fn="TokenKind::keyword_from_str / TokenKind::nchars", feature=None,
-             total=None, bound="the 33 keyword spellings (complete table); unwind 12",
+             total=None, bound=None,
              text="ensures for every keyword spelling w: keyword_from_str(w) == Some(k) with k.is_keyword() and k.nchars() == w.len() (real strum-derived FromStr / IntoStaticStr)"),
         dict(h="tokenize_total", id="C04.lex.tokenize.total", props=["C04"], fn="tokenize_file", feature=None, tiers=("thorough",),
              total=None,
@@ -385,3 +406,179 @@ def run(tier="quick"):
         return obs, info
     finally:
         sc.cleanup()
+
+
+# ------------------------------------------------------------------ replay on the real CLI
+
+ANSI = re.compile(r'\x1b\[[0-9;]*m')
+
+
+def _playback(harness, feature, tier):
+    """Re-run one harness with concrete playback; returns (result dict, byte-vector list)."""
+    sc = E.Scratch("u11r")
+    try:
+        build(sc.path, tier)
+        res, cmd, wall = run_batch(sc.path, [harness], feature, 900, 1, playback=True)
+        r = res[harness]
+        return r, r.get('playback')
+    finally:
+        sc.cleanup()
+
+
+def _u8s(vals):
+    return [v[0] if v else 0 for v in vals]
+
+
+def py_unescape(cs):
+    """C30's unescape, mirrored from harness.rs spec_unescape: (text, bad)."""
+    out, bad, p = [], False, 0
+    simple = {'n': '\n', 't': '\t', 'r': '\r', '"': '"', "'": "'", '\\': '\\'}
+    hexd = "0123456789abcdefABCDEF"
+    while p < len(cs):
+        c = cs[p]
+        if c == '\\' and p + 1 < len(cs):
+            e = cs[p + 1]
+            if e in simple:
+                out.append(simple[e])
+                p += 2
+            elif e == 'x' and p + 3 < len(cs) and cs[p + 2] in hexd and cs[p + 3] in hexd:
+                out.append(chr(int(cs[p + 2] + cs[p + 3], 16)))
+                p += 4
+            else:
+                bad = True
+                p += 2
+        else:
+            out.append(c)
+            p += 1
+    return "".join(out), bad
+
+
+def _first_unescaped(cs, d):
+    p = 0
+    while p < len(cs):
+        if cs[p] == '\\':
+            p += 2
+            continue
+        if cs[p] == d:
+            return p
+        p += 1
+    return None
+
+
+def _diag_positions(text, title):
+    """(line, col) of every diagnostic whose title is `title` in codespan output."""
+    out = []
+    lines = ANSI.sub('', text).split('\n')
+    for i, l in enumerate(lines):
+        if l.startswith('error') and title in l:
+            for l2 in lines[i + 1:i + 3]:
+                m = re.search(r':(\d+):(\d+)\s*$', l2)
+                if m:
+                    out.append((int(m.group(1)), int(m.group(2))))
+                    break
+    return out
+
+
+def _line_col(text, k):
+    """1-based (line, column in chars) of char position k of text."""
+    before = text[:k]
+    line = before.count('\n') + 1
+    col = len(before) - (before.rfind('\n') + 1) + 1
+    return line, col
+
+
+def replay(ob):
+    tier = os.environ.get("VERIF_TIER", "quick")
+    tier = "thorough" if tier == "thorough" else "quick"
+    b = BOUNDS[tier]
+    if ob.id == "C29.lex.block_comment.skip":
+        r, pb = _playback("block_comment_skip", None, tier)
+        info = dict(harness=MOD + "block_comment_skip", status=r['status'], failed=r['failed'][:4])
+        if r['status'] != E.FAILED or not pb or len(pb) < 1 + b['N_CMT']:
+            return None, info
+        v = _u8s(pb)
+        n = v[0]
+        cs = "".join(T_CMT[i] for i in v[1:1 + b['N_CMT']])[:n]
+        close = cs.find("*/")
+        info['counterexample'] = dict(text="/*" + cs, first_close=close)
+        ob.cex = info['counterexample']
+        if close >= 0:
+            comment = "/*" + cs[:close + 2]
+            with_c = "println(1 %s + 2)\n" % comment
+            without = "println(1   + 2)\n"
+        else:
+            comment = "/*" + cs
+            with_c = "println(3)\n" + comment
+            without = "println(3)\n "
+        o1 = abra_cli.run_program(with_c)
+        o0 = abra_cli.run_program(without)
+        info.update(program_with_comment=with_c, program_with_blank=without,
+                    real_with_comment=dict(stdout=o1[0][:400], stderr=ANSI.sub('', o1[1])[:600], rc=o1[2]),
+                    real_with_blank=dict(stdout=o0[0][:400], stderr=ANSI.sub('', o0[1])[:600], rc=o0[2]),
+                    expected="identical behaviour (C29: a block comment whose text does not contain `*/` is a blank)")
+        return ((o1[0], o1[2]) != (o0[0], o0[2]) or (o1[2] != 0) != (o0[2] != 0)), info
+    if ob.id == "C33.lex.span.byte_offsets":
+        r, pb = _playback("span_byte_offsets", None, tier)
+        info = dict(harness=MOD + "span_byte_offsets", status=r['status'], failed=r['failed'][:4])
+        N = b['N_SPAN']
+        if r['status'] != E.FAILED or not pb or len(pb) < 2 + N:
+            return None, info
+        v = _u8s(pb)
+        n = v[0]
+        cs = "".join(T_SPAN[i] for i in v[1:1 + N])[:n]
+        k = v[1 + N]
+        info['counterexample'] = dict(source=cs, cursor_char=k, token=cs[k:k + 1],
+                                      byte_offset=len(cs[:k].encode()), char_index=k)
+        ob.cex = info['counterexample']
+        # 1. the counterexample text itself: positions of the lexer's own diagnostics
+        o = abra_cli.run_program(cs)
+        got = _diag_positions(o[0] + o[1], "Unrecognized token")
+        want = [_line_col(cs, i) for i, c in enumerate(cs) if c in ('é', '😀')]
+        # 2. the same text followed by a probe token `$` whose diagnostic position is known
+        probe = cs + "$"
+        o2 = abra_cli.run_program(probe)
+        got2 = _diag_positions(o2[0] + o2[1], "Unrecognized token")
+        want2 = want + [_line_col(probe, len(cs))]
+        info.update(program=cs, real_output=ANSI.sub('', o[0] + o[1])[:900], reported_positions=got, expected_positions=want,
+                    probe_program=probe, probe_output=ANSI.sub('', o2[0] + o2[1])[:900], probe_reported=got2, probe_expected=want2)
+        if not got2 and not got:
+            return None, info
+        return (got != want or got2 != want2), info
+    if ob.id in ("C30.lex.escapes.post", "C30.lex.escapes_hex.post"):
+        hx = ob.id.endswith("escapes_hex.post")
+        r, pb = _playback("escapes_hex" if hx else "escapes", "r7", tier)
+        info = dict(harness=MOD + ("escapes_hex" if hx else "escapes"), status=r['status'], failed=r['failed'][:4])
+        if r['status'] != E.FAILED or not pb:
+            return None, info
+        v = _u8s(pb)
+        if hx:
+            if len(v) < 4:
+                return None, info
+            cs = ("\\x" + T_HEX[v[1]] + T_HEX[v[2]] + T_ESC[v[3]])[:v[0]]
+        else:
+            N = b['N_ESC']
+            if len(v) < 1 + N:
+                return None, info
+            cs = "".join(T_ESC[i] for i in v[1:1 + N])[:v[0]]
+        want, bad = py_unescape(cs)
+        info['counterexample'] = dict(literal_content=cs, spec_text=want, spec_is_error=bad)
+        ob.cex = info['counterexample']
+        # embed as a string literal whose content is exactly cs
+        q = None
+        for d in ('"', "'"):
+            if _first_unescaped(cs, d) is None and (len(cs) - len(cs.rstrip('\\'))) % 2 == 0:
+                q = d
+                break
+        if q is None:
+            info['note'] = "counterexample cannot be written as a single-line literal"
+            return None, info
+        prog = "print(%s%s%s)\n" % (q, cs, q)
+        o = abra_cli.run_program(prog)
+        diag = "Unrecognized escape sequence" in (o[0] + o[1])
+        info.update(program=prog, real_stdout=o[0][:200], real_stdout_bytes=list(o[0].encode()[:32]),
+                    real_stderr=ANSI.sub('', o[1])[:500], rc=o[2],
+                    expected=("diagnostic `Unrecognized escape sequence`" if bad else "prints %r" % want))
+        if bad:
+            return (not diag), info
+        return (diag or o[0] != want), info
+    return None, dict(note="no replay for %s" % ob.id)
